@@ -145,6 +145,8 @@ type AMF struct {
 	ULRecv     int
 	DLTags     []string // tag of each downlink message ("after-registration-complete" marks the ignored one)
 	FaultFired bool
+	FaultDone  time.Time // when the fault had taken effect at the transport (diagnostics and the quiet window of a watchdog only)
+	lastMsg    time.Time
 	Closed     bool
 	send       func([]byte) error
 	closeConn  func()
@@ -198,6 +200,13 @@ func (a *AMF) Activity() int {
 	return a.ULRecv + a.DLSent
 }
 
+// State is a one-line account of where the AMF stands (diagnostics of a watchdog).
+func (a *AMF) State() string {
+	a.mu.Lock()
+	defer a.mu.Unlock()
+	return fmt.Sprintf("AMF: %d uplink read, %d downlink sent, fault fired=%v, closed=%v", a.ULRecv, a.DLSent, a.FaultFired, a.Closed)
+}
+
 // NViolations is safe to call from another goroutine than the one feeding HandleUplink.
 func (a *AMF) NViolations() int {
 	a.mu.Lock()
@@ -231,6 +240,7 @@ func (a *AMF) down(ue int64, name string, tag string, pdu ngapType.NGAPPDU, nasN
 			a.Events = append(a.Events, ev)
 			a.Closed = true
 			a.closeConn()
+			a.FaultDone = time.Now()
 			return
 		}
 		if a.Fault.Kind == "close-after" {
@@ -238,12 +248,14 @@ func (a *AMF) down(ue int64, name string, tag string, pdu ngapType.NGAPPDU, nasN
 			a.Events = append(a.Events, ev)
 			a.DLTags = append(a.DLTags, tag)
 			a.DLSent++
+			a.lastMsg = time.Now()
 			if a.StopReading != nil {
 				a.StopReading()
 			}
 			a.send(b)
 			a.Closed = true
 			a.closeConn()
+			a.FaultDone = time.Now()
 			return
 		}
 		if d := LateBy(a.Fault.Kind); d > 0 {
@@ -259,9 +271,32 @@ func (a *AMF) down(ue int64, name string, tag string, pdu ngapType.NGAPPDU, nasN
 	a.Events = append(a.Events, ev)
 	a.DLTags = append(a.DLTags, tag)
 	a.DLSent++
+	a.lastMsg = time.Now()
 	if err := a.send(b); err != nil {
 		a.Closed = true
 	}
+	if strings.HasPrefix(ev.Note, "FAULT:") {
+		a.FaultDone = time.Now()
+	}
+}
+
+// MarkFaultDone: the transport tells the AMF that the fault it asked for ("abort") has taken effect.
+func (a *AMF) MarkFaultDone() {
+	a.mu.Lock()
+	defer a.mu.Unlock()
+	a.FaultDone = time.Now()
+}
+
+// Quiet reports the message counters and since when nothing has happened: the later of the last message in either
+// direction and the moment the fault took effect. delivered = the fault has taken effect (or none was asked for).
+func (a *AMF) Quiet() (activity int, since time.Time, delivered bool) {
+	a.mu.Lock()
+	defer a.mu.Unlock()
+	since = a.lastMsg
+	if a.FaultDone.After(since) {
+		since = a.FaultDone
+	}
+	return a.ULRecv + a.DLSent, since, a.Fault.At < 0 && a.Fault.Kind != "abort" || !a.FaultDone.IsZero() || !a.FaultFired
 }
 
 // LateBy: the delay of the "late" garbage kinds.
@@ -338,6 +373,24 @@ func Garbage(kind string, valid []byte, r *rand.Rand) []byte {
 			r.Read(b[8:])
 		}
 		return b
+	case "framed-damaged-interior":
+		// a PDU whose FRAME is intact - PDU alternative, procedure code, criticality and a length determinant that matches the
+		// octets delivered - around an interior no decoder can read: the protocolIEs container announces 65535 IEs (or,
+		// every third time, the first IE's value announces more octets than are left)
+		b := append([]byte(nil), valid...)
+		off := 4
+		if len(b) > 4 && b[3]&0x80 != 0 {
+			off = 5
+		}
+		if len(b) < off+8 {
+			return b[:len(b)-1]
+		}
+		if r.Intn(3) == 0 && len(b)-(off+7) < 0x70 {
+			b[off+6] = 0x7f
+		} else {
+			b[off+1], b[off+2] = 0xff, 0xff
+		}
+		return b
 	case "other-type-truncated": // starts like a message of ANOTHER procedure (decodes partially before failing), cut in half
 		b := append([]byte(nil), valid[:len(valid)/2+1]...)
 		heads := [][2]byte{{0x00, 0x04}, {0x00, 0x0e}, {0x00, 0x1d}, {0x20, 0x15}, {0x00, 0x29}, {0x00, 0x1c}, {0x20, 0x0e}}
@@ -354,7 +407,7 @@ func Garbage(kind string, valid []byte, r *rand.Rand) []byte {
 	}
 }
 
-var GarbageKinds = []string{"garbage:one-octet", "garbage:random32", "garbage:truncated-half", "garbage:choice3", "garbage:random2048", "garbage:bad-length", "garbage:zeros", "garbage:truncated-1", "garbage:random2047", "garbage:random8192", "garbage:other-type-truncated", "garbage:dl-nas-header", "garbage:unsolicited-header", "garbage:late-17s", "garbage:sctp-notification-shaped"}
+var GarbageKinds = []string{"garbage:one-octet", "garbage:random32", "garbage:truncated-half", "garbage:choice3", "garbage:random2048", "garbage:bad-length", "garbage:zeros", "garbage:truncated-1", "garbage:random2047", "garbage:random8192", "garbage:other-type-truncated", "garbage:dl-nas-header", "garbage:unsolicited-header", "garbage:late-17s", "garbage:sctp-notification-shaped", "garbage:framed-damaged-interior"}
 
 func pick3(r *rand.Rand, xs ...string) string { return xs[r.Intn(len(xs))] }
 
@@ -491,6 +544,7 @@ func (a *AMF) HandleUplink(b []byte) {
 	a.mu.Lock()
 	defer a.mu.Unlock()
 	a.ULRecv++
+	a.lastMsg = time.Now()
 	ev := Event{N: len(a.Events), Dir: "up", UE: -1, Count: -1}
 	var pdu ngapType.NGAPPDU
 	if err := per.Unmarshal(b, &pdu, pduTag); err != nil {
